@@ -25,7 +25,7 @@ fn c20_families(tier: Tier) -> Vec<Family> {
             (Kind::Templates, _) => false, // own signature; calls are covered by the skeleton constructs
             (Kind::Table, _) => true,      // run on boundary inputs here, not on the full table
             (Kind::Skel { size, .. }, Tier::Quick) => *size <= 2,
-            (Kind::Skel { size, .. }, Tier::Thorough) => *size <= 3,
+            (Kind::Skel { size, .. }, Tier::Thorough) => *size <= 2 || (*size == 3 && wide(&f.t)) || (*size == 3 && f.t == Ty::Int(IntTy::I32)),
             (Kind::Num { depth, .. }, _) => *depth <= 1,
             (Kind::Bools { d_num, .. }, Tier::Quick) => *d_num == 0 && wide(&f.t),
             (Kind::Bools { d_num, .. }, Tier::Thorough) => *d_num == 0,
@@ -55,7 +55,7 @@ fn inputs_for(f: &Family, tier: Tier) -> Vec<(V, V)> {
     let mut v = vec![];
     let steps: &[usize] = match tier {
         Tier::Quick => &[0, 1, 5],
-        Tier::Thorough => &[0, 1, 2, 3, 5, 7],
+        Tier::Thorough => &[0, 1, 3, 5],
     };
     for i in 0..n {
         for s in steps {
